@@ -36,10 +36,11 @@ EXPLANATION = 'C14: Policy.run_on / POMDPPolicy.run_on validity under a demonic 
 
 @contextlib.contextmanager
 def facades(uses, *extra):
-    if not S.symbolic():
-        yield
-        return
     trip = Tripwire('random', uses)
+    if not S.symbolic():
+        with patched((pol, dict(random=trip)), (ppol, dict(random=trip)), (dd, dict(random=trip)), (dct, dict(random=trip))):
+            yield
+        return
     with M.facades(*extra), patched((pol, dict(random=trip)), (ppol, dict(random=trip)), (dd, dict(random=trip)), (dct, dict(random=trip))):
         yield
 
